@@ -32,9 +32,36 @@ ExplainsWM(cfg, c, r) ==
          [] c.op = "rank" -> r.v = WRankTab(cfg.text, c.a.c)
          [] OTHER -> FALSE
 
+\* rsbig: run.cfg = [n, k, P, R, X] = a structured vector (Succinct.tla, closed form), n up to 10^6;
+\* events new | rank(is) -> v1, v0 (rank_1 / rank_0 at the listed positions) | select(js) -> s1, s0
+\* | get(is) -> v
+ExplainsBig(cfg, c, r) ==
+    LET R == {cfg.R[i] : i \in 1..Len(cfg.R)}
+        X == {cfg.X[i] : i \in 1..Len(cfg.X)}
+        n == cfg.n  P == cfg.P
+    IN
+    /\ r.st = "ok"
+    /\ P >= 1 /\ n >= 1
+    /\ CASE c.op = "new" -> TRUE
+         [] c.op = "get" ->
+              /\ Len(r.v) = Len(c.a.is)
+              /\ \A q \in 1..Len(c.a.is) : r.v[q] = SBit(P, R, X, c.a.is[q])
+         [] c.op = "rank" ->
+              /\ Len(r.v1) = Len(c.a.is) /\ Len(r.v0) = Len(c.a.is)
+              /\ \A q \in 1..Len(c.a.is) :
+                    /\ r.v1[q] = SRank(n, P, R, X, 1, c.a.is[q])
+                    /\ r.v0[q] = SRank(n, P, R, X, 0, c.a.is[q])
+         [] c.op = "select" ->
+              /\ Len(r.s1) = Len(c.a.js) /\ Len(r.s0) = Len(c.a.js)
+              /\ \A q \in 1..Len(c.a.js) :
+                    /\ SSelectOk(n, P, R, X, 1, c.a.js[q], r.s1[q])
+                    /\ SSelectOk(n, P, R, X, 0, c.a.js[q], r.s0[q])
+         [] OTHER -> FALSE
+
 Explains(fam, cfg, e) ==
     CASE fam = "rs" -> ExplainsRS(cfg, e.c, e.r)
       [] fam = "wm" -> ExplainsWM(cfg, e.c, e.r)
+      [] fam = "rsbig" -> ExplainsBig(cfg, e.c, e.r)
       [] OTHER -> FALSE
 
 Init == run \in 1..Len(Rec) /\ idx = 0 /\ ok = TRUE
